@@ -6,6 +6,8 @@
 package main
 
 import (
+	"crypto/sha1"
+	"encoding/hex"
 	"encoding/json"
 	"fmt"
 	"sort"
@@ -178,7 +180,7 @@ func inDir(dir, pkg string) bool {
 
 func isPublic(v L) bool { return v.Pkg == "" && v.Name == "..." }
 
-// selects: the visibility pattern v selects the target l. sameRepo=false ignores the repository
+// selects: the visibility pattern v selects the target l. strictRepo=false ignores the repository
 // (used only to classify a divergence, never for the verdict).
 func selects(v, l L, strictRepo bool) bool {
 	if isPublic(v) { // PUBLIC is //... : everything
@@ -435,7 +437,12 @@ func genPair(r *lib.Rng) Input {
 
 // ------------------------------------------------------------------------------------------
 
-func jsKey(v any) string { b, _ := json.Marshal(v); return string(b) }
+// jsKey identifies an input for the distinct count (a digest, so that large runs stay small in memory).
+func jsKey(v any) string {
+	b, _ := json.Marshal(v)
+	h := sha1.Sum(b)
+	return hex.EncodeToString(h[:10])
+}
 
 func evalCheck(c *lib.Ctx, in Input, asCase bool) {
 	t := *in.Target
@@ -551,12 +558,12 @@ func main() {
 			evalCheck(c, in, true)
 		}
 		// --- 1. whole checks
-		nCase, nEval := c.Scale(900, 12000), c.Scale(6000, 200000)
+		nCase, nEval := c.Scale(900, 6000), c.Scale(6000, 100000)
 		for i := 0; i < nCase+nEval; i++ {
 			evalCheck(c, genCheck(c.Rng.Fork()), i < nCase)
 		}
 		// --- 2. pairs through CanSee
-		nCase, nEval = c.Scale(700, 10000), c.Scale(20000, 600000)
+		nCase, nEval = c.Scale(700, 5000), c.Scale(20000, 200000)
 		for i := 0; i < nCase+nEval; i++ {
 			evalPair(c, genPair(c.Rng.Fork()), i < nCase)
 		}
@@ -573,8 +580,8 @@ func main() {
 					map[string]any{"kind": "parent", "label": l})
 			}
 		}
-		nInc := c.Scale(300, 4000)
-		for i := 0; i < nInc+c.Scale(20000, 400000); i++ {
+		nInc := c.Scale(300, 2000)
+		for i := 0; i < nInc+c.Scale(20000, 100000); i++ {
 			r := c.Rng.Fork()
 			l := genLabel(r)
 			v := genPattern(r, l)
@@ -616,7 +623,9 @@ func tgt(label string, vis []string, test, testOnly bool, deps ...string) T {
 	return t
 }
 
-func one(exp []string, t T, g ...T) Input { return Input{Kind: "check", Exp: exp, Graph: g, Target: &t} }
+func one(exp []string, t T, g ...T) Input {
+	return Input{Kind: "check", Exp: exp, Graph: g, Target: &t}
+}
 
 func corpus() []Input {
 	pub := []string{"||..."}
